@@ -7,6 +7,37 @@ open Drv
 let hex_name l = if l = [] then "-" else hex_of_bytes l
 let zcmp a b = match BinInt.Z.compare a b with Eq -> 0 | Lt -> -1 | Gt -> 1
 
+(* the EnumType seen through every read accessor (same line as enumViews in harness/go/c14.go):
+   NameMap, ValueMap, Names() with Value/IsDefined, Values() (the values of ToInt, sorted) with Name *)
+let views (e : Enum.coq_EnumType) =
+  (* Go sorts the names as strings = bytewise; compare the byte lists as int lists *)
+  let key n = L.map int_of_n n in
+  let ti = L.sort (fun (a, _) (b, _) -> compare (key a) (key b)) e.Enum.coq_ToInt in
+  let ts = L.sort (fun (a, _) (b, _) -> zcmp a b) e.Enum.coq_ToString in
+  let j x = if x = [] then "-" else Str_.concat "," x in
+  let value_of n = match Enum.lookup_s n e.Enum.coq_ToInt with Some v -> (string_of_z v, "t") | None -> ("0", "f") in
+  let name_of v = match Enum.lookup_z v e.Enum.coq_ToString with Some n -> hex_name n | None -> "-" in
+  let vals = L.sort zcmp (L.map snd e.Enum.coq_ToInt) in
+  "toint=" ^ j (L.map (fun (n, v) -> hex_name n ^ ":" ^ string_of_z v) ti)
+  ^ " tostring=" ^ j (L.map (fun (v, n) -> string_of_z v ^ ":" ^ hex_name n) ts)
+  ^ " names=" ^ j (L.map (fun (n, _) -> let (v, d) = value_of n in hex_name n ^ ":" ^ v ^ ":" ^ d) ti)
+  ^ " values=" ^ j (L.map (fun v -> string_of_z v ^ ":" ^ name_of v) vals)
+
+(* enummod: the member loop of Type.resolve; substatements other than value/position (status, description,
+   reference, if-feature) play no part in the assignment, and what a caller does to the containers it was
+   handed does not reach the type *)
+let do_enummod toks =
+  match toks with
+  | [bits; mems] ->
+    let ms = L.map (fun m -> match Str_.split_on_char ':' m with
+        | [n; v; _pre; _post] -> (L.init (Str_.length n) (fun i -> n_of_int (Char.code n.[i])),
+                                  (if v = "~" then None else Some (bytes_of_hex v)))
+        | _ -> failwith "member") (Str_.split_on_char ',' mems) in
+    (match Enum.run_members (bits = "1") ms with
+     | Outcome.Ok (e, errs) -> if errs <> [] then "err" else "ok " ^ views e
+     | Outcome.Err -> "err" | Outcome.Panic -> "panic" | Outcome.Unmodelled -> "unmodelled")
+  | _ -> "bad-case"
+
 let do_enumapi toks =
   match toks with
   | bits :: rest ->
@@ -14,27 +45,25 @@ let do_enumapi toks =
     let e0 = if bits = "1" then Enum.coq_NewBitfield else Enum.coq_NewEnumType in
     let unmodelled = ref false in
     let step (e, verdicts) op =
-      let r = match Str_.split_on_char ':' op with
-        | ["n"; n] -> Enum.coq_SetNext e (bytes_of_hex n)
-        | ["s"; n; v] -> Enum.coq_Set_ e (bytes_of_hex n) (z_of_string v)
-        | _ -> failwith "op" in
-      match r with
-      | Outcome.Ok e' -> (e', 'o' :: verdicts)
-      | Outcome.Err -> (e, 'e' :: verdicts)
-      | Outcome.Panic -> (e, 'P' :: verdicts)
-      | Outcome.Unmodelled -> unmodelled := true; (e, 'U' :: verdicts) in
+      match Str_.split_on_char ':' op with
+      | ["md"] | ["mo"] | ["ma"] | ["vd"] | ["vo"] | ["va"] | ["ln"] | ["lv"] ->
+        (* NameMap / ValueMap / Names / Values hand out copies: editing them changes nothing *)
+        (e, 'r' :: verdicts)
+      | parts ->
+        let r = match parts with
+          | ["n"; n] -> Enum.coq_SetNext e (bytes_of_hex n)
+          | ["s"; n; v] -> Enum.coq_Set_ e (bytes_of_hex n) (z_of_string v)
+          | _ -> failwith "op" in
+        (match r with
+         | Outcome.Ok e' -> (e', 'o' :: verdicts)
+         | Outcome.Err -> (e, 'e' :: verdicts)
+         | Outcome.Panic -> (e, 'P' :: verdicts)
+         | Outcome.Unmodelled -> unmodelled := true; (e, 'U' :: verdicts)) in
     let (e, verdicts) = L.fold_left step (e0, []) ops in
     if !unmodelled then "unmodelled" else begin
       let vs = Str_.concat "" (L.rev_map (Str_.make 1) verdicts) in
-      (* Go sorts the names as strings = bytewise; compare the byte lists as int lists *)
-      let key n = L.map int_of_n n in
-      let ti = L.sort (fun (a, _) (b, _) -> compare (key a) (key b)) e.Enum.coq_ToInt in
-      let ts = L.sort (fun (a, _) (b, _) -> zcmp a b) e.Enum.coq_ToString in
-      let j x = if x = [] then "-" else Str_.concat "," x in
-      "ops=" ^ (if vs = "" then "-" else vs)
-      ^ " toint=" ^ j (L.map (fun (n, v) -> hex_name n ^ ":" ^ string_of_z v) ti)
-      ^ " tostring=" ^ j (L.map (fun (v, n) -> string_of_z v ^ ":" ^ hex_name n) ts)
+      "ops=" ^ (if vs = "" then "-" else vs) ^ " " ^ views e
     end
   | _ -> "bad-case"
 
-let () = register "enumapi" do_enumapi
+let () = register "enumapi" do_enumapi; register "enummod" do_enummod
